@@ -309,6 +309,8 @@ pub enum ChunkSpec {
     CelExtra,
     Mask,
     Path,
+    /// an ignorable chunk (0x2006 / 0x2016 / 0x2017) with an arbitrary payload
+    Ignorable { ty: u16, data: Vec<u8> },
     Raw { ty: u16, data: Vec<u8> },
 }
 
@@ -334,6 +336,7 @@ impl ChunkSpec {
             ChunkSpec::CelExtra => "celextra",
             ChunkSpec::Mask => "mask",
             ChunkSpec::Path => "path",
+            ChunkSpec::Ignorable { .. } => "ignorable",
             ChunkSpec::Raw { .. } => "raw",
         }
     }
